@@ -1,6 +1,7 @@
 package typed
 
 import (
+	"strings"
 	"sort"
 
 	"verif/mc/ref"
@@ -45,6 +46,22 @@ func names(s *rs.Schema) []string {
 		out = append(out, n)
 	}
 	sort.Strings(out)
+	return out
+}
+
+// nearKeys: strings that differ from k only in case or in a trailing byte.
+func nearKeys(k string) []string {
+	var out []string
+	seen := map[string]bool{k: true}
+	for _, n := range []string{strings.ToUpper(k), strings.ToLower(k), strings.Title(k), k + " ", k + "\x00"} { //lint:ignore SA1019 Title: ASCII names only
+		if !seen[n] {
+			seen[n] = true
+			out = append(out, n)
+		}
+	}
+	if len(k) > 1 && !seen[k[:len(k)-1]] {
+		out = append(out, k[:len(k)-1])
+	}
 	return out
 }
 
@@ -111,6 +128,14 @@ func localMutants(v ref.Val, nm []string) []Mutant {
 					r[i] = ref.Entry{K: n, V: e.V}
 					add(ref.Map(r...), "entry-renamed")
 				}
+			}
+			// the key in another case, and with a byte appended or its last byte dropped: near-identical
+			// strings are other strings (renamed in place, and added beside the original)
+			for _, n := range nearKeys(e.K) {
+				r := append([]ref.Entry{}, v.M...)
+				r[i] = ref.Entry{K: n, V: e.V}
+				add(ref.Map(r...), "entry-renamed-to-near-key")
+				add(ref.Map(append(append([]ref.Entry{}, v.M...), ref.Entry{K: n, V: e.V})...), "near-key-added")
 			}
 			if i+1 < len(v.M) {
 				sw := append([]ref.Entry{}, v.M...)
